@@ -384,6 +384,42 @@ def random_raw(rng):
     return ops
 
 
+def reassign_raw(rng):
+    """directed: an object-valued base reference is RE-ASSIGNED while sub spaces derive the name from another
+    definition - an override in the middle of a chain (Base.x; Sub(Base) overrides x; GSub(Sub)) and / or a base of
+    higher priority (C(A, Base) with A.x defined) - and while plain derivers exist too"""
+    ops = [["space", ["Base"], []]]
+    for c in ("foo", "bar", "baz"):
+        ops.append(["cells", ["Base"], c])
+    m0, m1, m2 = rng.choice(MM.MODES), rng.choice(MM.MODES), rng.choice(["auto", "auto", "relative", "absolute"])
+    how = lambda: rng.choice(["set_ref", "attr", "kw"])
+    ops.append(["setref", ["Base"], "x", m0 if m0 != "relative" or True else "auto", ["Base", "foo"], how()])
+    ops.append(["space", ["Plain"], [["Base"]]])                       # derives x from Base all along
+    shape = rng.choice(["chain", "prio", "both"])
+    if shape in ("chain", "both"):
+        ops.append(["space", ["Sub"], [["Base"]]])
+        ops.append(["setref", ["Sub"], "x", m1, rng.choice([["Sub", "bar"], ["Base", "bar"], ["Sub"]]), how()])
+        ops.append(["space", ["GSub"], [["Sub"]]])
+        if rng.random() < 0.4:
+            ops.append(["params", ["GSub"]])
+    if shape in ("prio", "both"):
+        ops.append(["space", ["A"], []])
+        ops.append(["cells", ["A"], "foo"])
+        ops.append(["setref", ["A"], "x", rng.choice(MM.MODES), ["A", "foo"], how()])
+        ops.append(["space", ["C"], [["A"], ["Base"]]])
+    ops.append(["obs"])
+    tg = rng.choice([["Base", "baz"], ["Base", "bar"], ["Base"]])
+    ops.append(["setref", ["Base"], "x", m2, tg, how()])            # the re-assignment
+    ops.append(["obs"])
+    if rng.random() < 0.5:
+        ops.append(["setref", ["Base"], "x", rng.choice(MM.MODES), ["Base", "foo"], how()])
+        ops.append(["obs"])
+    if rng.random() < 0.3:
+        ops.append(["roundtrip", rng.choice(["dir", "zip"])])
+        ops.append(["obs"])
+    return ops
+
+
 def prepare(raw, filt, tag):
     """run the mirror over a raw history: drop invalid edits, drop the history when an edit touches a
     recorded defect, compute ideal acceptance / tables / ItemSpace expectations / state keys"""
@@ -603,6 +639,13 @@ def suite_history(tier, rng, out):
             filt["random histories dropped"] += 1
             continue
         cases.append(pc)
+    ndir = 0
+    for _ in range(40 if tier == "quick" else 600):
+        pc = prepare(reassign_raw(rng), filt, "reassign")
+        if pc is None:
+            filt["directed histories dropped"] += 1
+            continue
+        cases.append(pc); ndir += 1
     wit = load_witnesses()
     wcases = [{"kind": "script", "script": w["script"]} for w in wit]
     send = [{k: c[k] for k in ("kind", "ops", "refnames")} for c in cases] + wcases
@@ -649,7 +692,7 @@ def suite_history(tier, rng, out):
     out.evaluations += len(terms)
     out.traces_validated += len(terms) - len(bad)
     out.distinct_nontrivial += nder
-    out.distribution["history"] = {"histories": len(cases), "grid": ngrid, "random": len(cases) - ngrid,
+    out.distribution["history"] = {"histories": len(cases), "grid": ngrid, "random": len(cases) - ngrid - ndir, "directed_reassign": ndir,
                                    "observation_points": len(terms), "features": dict(feat),
                                    "filtered": dict(filt), "witnesses": len(wit)}
     for c in cases[:1] + cases[-1:]:
